@@ -225,7 +225,9 @@ def check_C05(tier, seed):
     try:
         c.build(dist=True)
         _alloc_mc(c, tier)
-        _tw_mc(c, tier, [("TimeWarpMC_m1.tla", "TimeWarpMC_m1.cfg", "m1 (2 LPs: rollback to at/between/before checkpoints)", 2)] +
+        _tw_mc(c, tier, [("TimeWarpMC_m1.tla", "TimeWarpMC_m1.cfg", "m1 (2 LPs: rollback to at/between/before checkpoints)", 2),
+                         ("TimeWarpMC_m5.tla", "TimeWarpMC_m5_k2.cfg", "m5 (rollback over a send to the LP itself: restore before it, coast forward over the marks of "
+                          "local sends, a different re-execution)", 2)] +
                ([("TimeWarpMC_m2.tla", "TimeWarpMC_m2_k1.cfg", "m2 (3 LPs, cascade)", 1), ("TimeWarpMC_m2.tla", "TimeWarpMC_m2_k2.cfg", "m2", 2)]
                 if tier == "thorough" else []))
         c.driver_phase(_alloc_runs(tier, seed))
@@ -234,6 +236,7 @@ def check_C05(tier, seed):
         c.run(_models(tier, seed, ["mixed", "fanout", "ties", "zerodelay"], 6, 30), 5 if tier == "quick" else 14, emphasis=em)
         # rollbacks across ranks: the history then holds marks of remote sends, which coast forward must skip and rollback must cancel
         c.micro_phase("d1", 32 if tier == "quick" else 1500, ranks=2, threads=1)
+        c.micro_phase("m5", 32 if tier == "quick" else 1500)
         dem = lambda r: dict(DIST_EM(r), ckpt=r.choice([2, 3, 5, 7]))
         c.run(_models(tier, seed + 50, ["mixed", "fanout", "zerodelay"], 3, 12), 4 if tier == "quick" else 12, emphasis=dem)
         return c.finish(rule=ALLOC_RULE)
